@@ -266,34 +266,40 @@ def r2_6_address_layout(ctx, prog, rule="R2.6"):
                    "sets byte 0 to zero, byte 1 to the family (1 / 2), bytes 2..4 to the port and 4..8 / 4..20 to the address and "
                    "returns 8 / 20; the reader selects on byte 1 alone, reads exactly those ranges, returns the same sizes for the "
                    "same families and never reads the reserved byte 0")
-    # writer
-    paths, info = C.explore_fn(prog, AP + "<impl stun_rs::Encode for std::net::SocketAddr>::encode", "x", [r"\{closure"])
+    # writer: the byte map of the output is rebuilt from every kind of write (element writes, write_u16, copy / clone
+    # from an array literal or to_be_bytes, fill) and compared byte by byte
+    from . import coverage_rules as K
+    enc_path = AP + "<impl stun_rs::Encode for std::net::SocketAddr>::encode"
+    paths, info = C.explore_fn(prog, enc_path, "x", K.STEP, memo_shared=True)
     ctx.fn(info["body"])
     fam_len = {}
     n = 0
     for pa in paths:
-        fam = pa.choice(r"^variant\(ret:ip@")
-        if fam is None:
+        r = C.expr_of(pa, pa.ret)
+        if not (isinstance(r, tuple) and r[0] == "Result::Ok"):
             continue
+        fam = None
+        for nme, v in pa.choices:
+            if re.match(r"^variant\(ret:ip", str(nme)):
+                fam = v
         n += 1
-        elems = {w[2][0]: w[3] for w in pa.writes if w[0] == "write-elem" and w[1] == "buffer"}
-        rng = {}
-        for e in pa.calls:
-            a = C.expr_of(pa, e[2])
-            if re.search(r"::index_mut$", e[1]) and a and a[0] == "top:buffer" and isinstance(a[1], tuple) and a[1][0] == "Range":
-                rng[(a[1][1], a[1][2])] = e[4]
-        port = [C.expr_of(pa, e[2]) for e in pa.calls if re.search(r"ByteOrder>::write_u16$", e[1])]
-        addr = [C.expr_of(pa, e[2]) for e in pa.calls if re.search(r"clone_from_slice$|copy_from_slice$", e[1])]
+        ivs, probs = K.intervals(prog, pa, "buffer")
+        size = r[1]
         alen = 4 if fam == "V4" else 16
         code = 1 if fam == "V4" else 2
-        ok = elems == {"[0]": 0, "[1]": code} and set(rng) == {(2, 4), (4, 4 + alen)} \
-            and len(port) == 1 and port[0][0][0][2] == ("Range", 2, 4) and port[0][1] == ("SocketAddr::port", "top:x") \
-            and len(addr) == 1 and addr[0][0][0][2] == ("Range", 4, 4 + alen) and "octets" in repr(addr[0][1]) and "SocketAddr::ip" in repr(addr[0][1])
-        r = C.expr_of(pa, pa.ret)
-        ok = ok and r == ("Result::Ok", ("address_port::encoded_size_", "top:x"))
+        okc, reached = K.covered(ivs, size) if isinstance(size, int) else (False, None)
+        b0, b1 = K.byte_value(ivs, 0), K.byte_value(ivs, 1)
+        port = [K.byte_value(ivs, 2), K.byte_value(ivs, 3)]
+        port_ok = all(isinstance(x, tuple) and x[0] == "be-byte" and x[1] == ("SocketAddr::port", "top:x") and x[3] == 2 for x in port) \
+            and [x[2] for x in port] == [0, 1]
+        addr = [K.byte_value(ivs, i) for i in range(4, 4 + alen)]
+        addr_ok = all(isinstance(x, tuple) and x[0] == "byte-of" and "octets" in repr(x[1]) and "SocketAddr::ip" in repr(x[1]) and x[3] == alen for x in addr) \
+            and [x[2] for x in addr] == list(range(alen))
+        ok = not probs and okc and size == 4 + alen and b0 == 0 and b1 == code and port_ok and addr_ok
         fam_len[code] = 4 + alen
-        ctx.ob(rule, "writer:%s" % fam, ok, "writes bytes %s, ranges %s, port %s, returns %s" % (elems, sorted(rng), show(port[0][1]) if port else None, show(r)[:60]),
-               info["where"], replay=None if ok else pa.describe())
+        ctx.ob(rule, "writer:%s" % fam, ok, "size %s, byte0=%s byte1=%s port=%s address=%s%s" % (
+            size, b0, b1, "2..4 big-endian" if port_ok else port, "4..%d octets" % (4 + alen) if addr_ok else str(addr)[:80],
+            ("; " + "; ".join(probs)) if probs else ""), info["where"], replay=None if ok else pa.describe())
     ctx.floor(rule, "writer families", n, 2)
     paths, info = C.explore_fn(prog, AP + "encoded_size_", "x", [])
     sizes = {pa.choice(r"^variant\(ret:ip@"): pa.ret for pa in paths}
@@ -412,6 +418,8 @@ def check(ctx, env):
     r2_6_address_layout(ctx, prog)
     r2_7_u16_list(ctx, prog)
     c01.r1_6_nested_padding(ctx, prog, rule="R2.8")      # inner padding of the nested PASSWORD-ALGORITHMS list is written where it belongs
+    from . import coverage_rules
+    coverage_rules.r14_5_write_coverage(ctx, prog, rule="R2.9")   # every byte of an encoded value is written (reserved / padding bytes cannot keep stale data)
     ctx.extra["exhaustive"] = True
     if env.tier == "thorough":
         from .. import witness
